@@ -66,6 +66,15 @@ def check_concatenation(ctx):
                             ctx.holds(rule, fi, st, ALLOWED_CURSOR_WRITERS[fi.qual], node.lineno, clause='2')
                         else:
                             ctx.violation(rule, fi, st, 'a pack strategy rewrites the buffer\'s %s: later fields are emitted at the wrong position' % t.attr, node.lineno, clause='2')
+        if not delegated:
+            try:
+                for p_ in repo.walker(max_paths=ctx.max_paths).paths(fi.node, cls=ci):
+                    for e in p_.all_effects():
+                        if e.kind == 'call' and isinstance(e.call.func, ast.Attribute) and e.call.func.attr in ('pack', 'pack_impl') \
+                                and canon(e.call.func.value) != 'self.struct_obj':
+                            delegated = True
+            except Undecided:
+                pass
         if not wrote and not delegated and fi.qual not in ('Field.pack_noop', 'Move.pack', 'Bkpt.pack'):
             ctx.violation(rule, fi, '[%s] %s' % (ci.name, fi.qual), 'the pack strategy neither writes at the cursor nor delegates to a child pack', fi.node.lineno, clause='2')
     for t in repo.templates():
